@@ -13,8 +13,10 @@ class PathDumper(FileDumper):
 
     def write_file_to_output(self, filename, path):
         path = os.path.join(self.out_path, path)
-        # Avoid rewriting existing files
-        if self.add_filehash_to_path and os.path.exists(path):
+        # Avoid rewriting existing files - those named after their content only:
+        # the descriptor (and a data file without a hash in its path) belongs to this run
+        hashed = self.add_filehash_to_path and self.resource_hash and os.path.basename(path) != 'datapackage.json'
+        if hashed and os.path.exists(path):
             return
         path_part = os.path.dirname(path)
         PathDumper.__makedirs(path_part)
